@@ -87,7 +87,7 @@ void runSt(const json& ep)
             for (const auto& p : op.at("batch"))
                 logBatchPacket(o, p);
             o.endArr();
-            logFrames(o, "frames", frames);
+            logFrames(o, "frames", frames, ctx.maxBytesPerMessage);
             for (auto& f : frames)
                 sys.q[dev].push_back(std::move(f));
         }
